@@ -67,78 +67,100 @@ Example C13_handles_example :
             SC.ucloses s = 1%nat /\ SC.created s = 2%nat.
 Proof. exact SCP.example_run. Qed.
 
-(* ================================== the write-abort word ==================================== *)
+(* ================================== the write-abort word ====================================
+   WA.step / WA.reach / WA.trace take the variant of clearWriteAbortState as first argument:
+   false = the code as it is, true = the code with findings/proposed/C13-stale-deadline-clearer.diff.
+   The harness determines which variant /repo contains and runs the acceptor for that one. *)
 
 (* In every reachable state with no writer and no aborter in flight, writeState = 0 and the
    socket's write deadline is cleared (or the last SetWriteDeadline(time.Time{}) itself failed) -
    for every number of writers and aborters and every interleaving of the atomic actions,
-   SetWriteDeadline(time.Time{}) allowed to fail,
-   PARTIAL: only for histories in which no SetWriteDeadline(time.Now()) call failed.  The property
-   also quantifies over that fault, and there the faithful model refutes the statement
-   (Findings/F_C13_stale_clearer.v: C13_quiescent_clean_refuted; reproduced on the real code by
-   suite writeabort). *)
+   SetWriteDeadline(time.Time{}) allowed to fail.
+   PARTIAL for the code as it is: only for histories in which no SetWriteDeadline(time.Now()) call
+   failed.  The property also quantifies over that fault, and there the faithful model refutes the
+   statement (Findings/F_C13_stale_clearer.v: C13_quiescent_clean_refuted; reproduced on the real
+   code by suite writeabort). *)
 Theorem C13_quiescent_clean_partial : forall ls s,
-  WA.trace ls s -> ~ In (WA.LArm false) ls -> WA.quiescent s ->
+  WA.trace false ls s -> ~ In (WA.LArm false) ls -> WA.quiescent s ->
   WA.ws s = WA.w0 /\ (WA.armed s = false \/ WA.clrfailed s = true).
-Proof. exact WAP.quiescent_clean_trace. Qed.
+Proof. exact WAP.quiescent_clean_current. Qed.
 Print Assumptions C13_quiescent_clean_partial.
 
-(* ... and with no failing SetWriteDeadline call at all the deadline IS cleared *)
+(* ... at full strength (arming failures included) for the code with the proposed fix *)
+Theorem C13_quiescent_clean_with_fix : forall ls s,
+  WA.trace true ls s -> WA.quiescent s ->
+  WA.ws s = WA.w0 /\ (WA.armed s = false \/ WA.clrfailed s = true).
+Proof. exact WAP.quiescent_clean_fixed. Qed.
+Print Assumptions C13_quiescent_clean_with_fix.
+
+(* with no failing SetWriteDeadline(time.Time{}) call the deadline IS cleared *)
 Theorem C13_quiescent_clean_nofail_partial : forall ls s,
-  WA.trace ls s -> ~ In (WA.LArm false) ls -> ~ In (WA.LClear false) ls -> WA.quiescent s ->
+  WA.trace false ls s -> ~ In (WA.LArm false) ls -> ~ In (WA.LClear false) ls -> WA.quiescent s ->
   WA.ws s = WA.w0 /\ WA.armed s = false.
-Proof. exact WAP.quiescent_clean_nofail. Qed.
+Proof. exact WAP.quiescent_clean_nofail_current. Qed.
 Print Assumptions C13_quiescent_clean_nofail_partial.
 
+Theorem C13_quiescent_clean_nofail_with_fix : forall ls s,
+  WA.trace true ls s -> ~ In (WA.LClear false) ls -> WA.quiescent s ->
+  WA.ws s = WA.w0 /\ WA.armed s = false.
+Proof. exact WAP.quiescent_clean_nofail_fixed. Qed.
+Print Assumptions C13_quiescent_clean_nofail_with_fix.
+
 (* The count field equals the number of writers between their increment and their decrement.
-   PARTIAL for the same reason (refuted with a failed arming: C13_count_exact_refuted). *)
-Theorem C13_count_exact_partial : forall s, WA.reach s -> WA.armfails s = O ->
+   PARTIAL for the code as it is, for the same reason (refuted with a failed arming:
+   C13_count_exact_refuted); full for the code with the proposed fix. *)
+Theorem C13_count_exact_partial : forall s, WA.reach false s -> WA.armfails s = O ->
   exists l, NoDup l /\ (forall i, In i l <-> WA.inflight (WA.wpcs s i) = true) /\ WA.cnt (WA.ws s) = length l.
-Proof. exact WAP.count_exact. Qed.
+Proof. exact WAP.count_exact_current. Qed.
 Print Assumptions C13_count_exact_partial.
 
-(* Liveness, PARTIAL.  Both wait loops spin only while blocked is set; whenever blocked is set
-   some thread of the running abort that does NOT spin is enabled, and its step advances its own
-   program counter: the aborter that owns blocked (until the deadline bit is set), afterwards an
-   in-flight writer or, once the count is zero, the writer clearing the deadline.
+Theorem C13_count_exact_with_fix : forall s, WA.reach true s ->
+  exists l, NoDup l /\ (forall i, In i l <-> WA.inflight (WA.wpcs s i) = true) /\ WA.cnt (WA.ws s) = length l.
+Proof. exact WAP.count_exact_fixed. Qed.
+Print Assumptions C13_count_exact_with_fix.
+
+(* Liveness, PARTIAL (both variants; for the code as it is only without a failed arming).
+   Both wait loops spin only while blocked is set; whenever blocked is set some thread of the
+   running abort that does NOT spin is enabled, and its step advances its own program counter:
+   the aborter that owns blocked (until the deadline bit is set or blocked is released),
+   afterwards an in-flight writer or, once the count is zero, the writer clearing the deadline.
    Missing for "nobody spins forever": (a) a fairness assumption (every continuously enabled
    thread eventually takes a step; the Go scheduler is not modelled), (b) termination of the
    helper's own CAS retry loops under that assumption (a variant over count / owner / writers is
-   not proved), (c) the socket returning from WriteTo once its deadline is armed, (d) histories
-   with a failed arming. *)
-Theorem C13_no_stuck_spin_partial : forall s, WA.reach s -> WA.armfails s = O ->
+   not proved), (c) the socket returning from WriteTo once its deadline is armed. *)
+Theorem C13_no_stuck_spin_partial : forall hv s, WA.reach hv s -> (hv = true \/ WA.armfails s = O) ->
   (forall i, WA.w_spins s i -> WA.blk (WA.ws s) = true) /\
   (WA.blk (WA.ws s) = true ->
    (WA.dl (WA.ws s) = false /\ exists j l s', WA.own s = Some j /\ WA.owning (WA.apcs s j) = true /\
-                                              WA.step s l s' /\ WA.apcs s' j <> WA.apcs s j) \/
+                                              WA.step hv s l s' /\ WA.apcs s' j <> WA.apcs s j) \/
    (WA.dl (WA.ws s) = true /\ exists i l s', (WA.inflight (WA.wpcs s i) = true \/ WA.clearing (WA.wpcs s i) = true) /\
-                                             ~ WA.w_spins s i /\ WA.step s l s' /\ WA.wpcs s' i <> WA.wpcs s i)).
+                                             ~ WA.w_spins s i /\ WA.step hv s l s' /\ WA.wpcs s' i <> WA.wpcs s i)).
 Proof. exact WAP.no_stuck_spin. Qed.
 Print Assumptions C13_no_stuck_spin_partial.
 
-(* The extracted monitor (run on the implementation's logs by bin/check) accepts every
-   quiescent run of the model without a failed arming: no false alarm on behaviour the model has. *)
-Theorem C13_wa_monitor_sound : forall ls s,
-  WA.trace ls s -> ~ In (WA.LArm false) ls -> WA.quiescent s ->
+(* The extracted monitor (run on the implementation's logs by bin/check) accepts every quiescent
+   run of the model for which the property is claimed: no false alarm on behaviour the model has. *)
+Theorem C13_wa_monitor_sound : forall hv ls s,
+  WA.trace hv ls s -> (hv = true \/ ~ In (WA.LArm false) ls) -> WA.quiescent s ->
   WA.C13_wa_monitor (map WA.EV ls) (WA.ws s) (WA.armed s) true false = true.
 Proof. exact WAP.wa_monitor_sound. Qed.
 Print Assumptions C13_wa_monitor_sound.
 
 (* The executable successor functions the extracted acceptor is built from produce exactly the
    steps of the relation (soundness for writers and aborters, completeness for all rules). *)
-Theorem C13_successors_sound : forall s,
+Theorem C13_successors_sound : forall hv s,
   (forall i l w' a' p', In (l, w', a', p') (WA.wnext i (WA.ws s) (WA.armed s) (WA.wpcs s i)) ->
-     exists s', WA.step s l s' /\ WA.ws s' = w' /\ WA.armed s' = a' /\ WA.wpcs s' i = p' /\
+     exists s', WA.step hv s l s' /\ WA.ws s' = w' /\ WA.armed s' = a' /\ WA.wpcs s' i = p' /\
                 (forall k, k <> i -> WA.wpcs s' k = WA.wpcs s k) /\ WA.apcs s' = WA.apcs s) /\
-  (forall j l w' a' p', In (l, w', a', p') (WA.anext j (WA.ws s) (WA.armed s) (WA.apcs s j)) ->
-     exists s', WA.step s l s' /\ WA.ws s' = w' /\ WA.armed s' = a' /\ WA.apcs s' j = p' /\
+  (forall j l w' a' p', In (l, w', a', p') (WA.anext hv j (WA.ws s) (WA.armed s) (WA.apcs s j)) ->
+     exists s', WA.step hv s l s' /\ WA.ws s' = w' /\ WA.armed s' = a' /\ WA.apcs s' j = p' /\
                 (forall k, k <> j -> WA.apcs s' k = WA.apcs s k) /\ WA.wpcs s' = WA.wpcs s).
 Proof. exact WAP.successors_sound. Qed.
 Print Assumptions C13_successors_sound.
 
-Theorem C13_successors_complete : forall s l s', WA.step s l s' ->
+Theorem C13_successors_complete : forall hv s l s', WA.step hv s l s' ->
   (exists i, In (l, WA.ws s', WA.armed s', WA.wpcs s' i) (WA.wnext i (WA.ws s) (WA.armed s) (WA.wpcs s i))) \/
-  (exists j, In (l, WA.ws s', WA.armed s', WA.apcs s' j) (WA.anext j (WA.ws s) (WA.armed s) (WA.apcs s j))).
+  (exists j, In (l, WA.ws s', WA.armed s', WA.apcs s' j) (WA.anext hv j (WA.ws s) (WA.armed s) (WA.apcs s j))).
 Proof. exact WAP.step_enumerated. Qed.
 Print Assumptions C13_successors_complete.
 
@@ -156,8 +178,9 @@ Theorem C13_word_encoding : forall w, WAP.word_ok w ->
 Proof. exact WAP.word_encoding. Qed.
 Print Assumptions C13_word_encoding.
 
-(* non-vacuity: a complete abort of a blocked write (armed, timed out, cleared) without failures *)
-Example C13_abort_example :
-  exists ls s, WA.trace ls s /\ ~ In (WA.LArm false) ls /\ ~ In (WA.LClear false) ls /\ WA.quiescent s /\
+(* non-vacuity: a complete abort of a blocked write (armed, timed out, cleared) without failures,
+   in either variant *)
+Example C13_abort_example : forall hv,
+  exists ls s, WA.trace hv ls s /\ ~ In (WA.LArm false) ls /\ ~ In (WA.LClear false) ls /\ WA.quiescent s /\
                In (WA.LArm true) ls /\ In (WA.LSockOut 0 false) ls /\ In (WA.LClear true) ls.
 Proof. exact WAP.example_abort_cycle. Qed.
